@@ -37,6 +37,11 @@ def aggDump (a : AggRec) : String :=
   s!"{a.flowType}/{corrToken a.corr}/{a.start}/{a.end_}/{a.endReason}/{hexOrDash a.tcpState}/{natsToken a.stats}/{natsToken a.srcStats}/{natsToken a.dstStats}/{a.endSrc}/{a.endDst}/{natsToken a.thr}/{natsToken a.thrSrc}/{natsToken a.thrDst}/{b01 a.ready}/{a.retries}/{b01 a.corrFilled}"
 
 def parseRec (a : List String) : Option InRec :=
+  -- an optional trailing `p<n>` = the order in which the record lists its elements (a permutation seed):
+  -- the aggregation looks fields up by NAME, so the model's record - a structure - does not carry it
+  let a := match a.reverse with
+    | p :: rest => if p.startsWith "p" && (p.drop 1).toString.toNat?.isSome then rest.reverse else a
+    | [] => a
   match a with
   | [k, ft, corr, st, en, reason, tcp, stats] => do
     let k ← k.toNat?
